@@ -4,6 +4,7 @@ import json
 import random
 import sys
 
+from harness import ref_text as RT
 from harness import core, ddl_reader as DR, expressible as EX, gen_db as GD, impl_text as IT, observe as O, speller as SP
 from harness import parse_common as PC
 from harness.driver import Driver, DriverError
@@ -40,7 +41,7 @@ def comments_of(d):
 
 
 def placement_job(seed):
-    spec = SP.normalise_for_spelling(GD.gen_spec(random.Random(seed), wild=False, max_tables=3), IT.norm_impl)
+    spec = SP.normalise_for_spelling(GD.gen_spec(random.Random(seed), wild=False, max_tables=3), RT.ref_norm)
     if not SP.spellable(spec):
         return None
     props = spec['allow_properties']
